@@ -13,6 +13,16 @@ namespace C18
 def TriangleFree (G : MG) : Prop :=
   ∀ x y z, adj G x y = true → adj G y z = true → adj G x z = true → False
 
+/-- every potentially directed two-edge path `x → y → z` is unshielded (weaker than triangle-freeness) -/
+def NoShieldedPd (G : MG) (fc : Bool) : Prop :=
+  ∀ x y z, pdEdge G fc x y = true → pdEdge G fc y z = true → adj G x z = false
+
+theorem noShieldedPd_of_triangleFree {G : MG} (hT : TriangleFree G) (fc : Bool) : NoShieldedPd G fc := by
+  intro x y z h1 h2
+  cases h3 : adj G x z with
+  | false => rfl
+  | true => exact (hT x y z (pdEdge_adj h1) (pdEdge_adj h2) h3).elim
+
 theorem inner_lookup_stable {cls : Option Nat → Nat → Nat → Cls} (this : Nat) (prev : Option Nat) :
     ∀ (l : List Nat) (s : St) (x : Nat), x ∈ s.explored →
       (inner cls this prev l s).desc.lookup x = s.desc.lookup x := by
@@ -70,13 +80,14 @@ def uInit (q : Query) : List Nat :=
 theorem pdEdge_irrefl {G : MG} (hS : Simple G) {fc : Bool} {x : Nat} : pdEdge G fc x x = false := by
   rw [← pdCode_eq_pdEdge hS]; exact pdCode_irrefl hS
 
-/-- **Completeness of `uncovered_pd_path` on triangle-free skeletons** (`…_complete_partial`; the
-    general statement is false, see `uncovPdPath_complete_false`).  For every graph of the domain
-    whose skeleton has no triangle, every faithful neighbour iteration order, every admissible
-    query (arguments are nodes, not both first and second node, `first_node ≠ u`): if an uncovered pd
-    path for the query exists, the model returns `found = True` with such a path. -/
-theorem uncovPdPath_complete_partial (G : MG) (hS : Simple G) (hW : WFG G) (hT : TriangleFree G)
-    (nb : Nat → List Nat) (hnb : ∀ x y, y ∈ nb x ↔ adj G x y = true) (q : Query)
+/-- **Completeness of `uncovered_pd_path` when no potentially-directed two-edge path is shielded**
+    (partial result; the general statement is false, see `uncovPdPath_complete_false`).  For every
+    graph of the domain in which `x → y → z` potentially directed implies x, z non-adjacent, every
+    faithful neighbour iteration order, every admissible query (arguments are nodes, not both first
+    and second node, `first_node ≠ u`): if an uncovered pd path for the query exists, the model returns
+    `found = True` with such a path. -/
+theorem uncovPdPath_complete_noShield (G : MG) (hS : Simple G) (hW : WFG G)
+    (q : Query) (hN : NoShieldedPd G q.fc) (nb : Nat → List Nat) (hnb : ∀ x y, y ∈ nb x ↔ adj G x y = true)
     (hfu : q.first ≠ some q.u) (hg : uncovGuard G q = false) (maxLen : Nat)
     (hlen : G.nodes.length < maxLen) (hex : ∃ p, UncovPd G q p) :
     ∃ p, uncovPdPath G nb q maxLen = .ok (p, true) ∧ UncovPd G q p := by
@@ -242,17 +253,16 @@ theorem uncovPdPath_complete_partial (G : MG) (hS : Simple G) (hW : WFG G) (hT :
             rcases hDv.pushP y (Or.inr hyD) with h | ⟨w, _, hw, hcw⟩
             · simp at h; exact absurd h hyr.2.1
             · rw [hpv] at hw; injection hw with hw; subst hw
-              have h1 : adj G pv y = true := pdCode_adj (uncovCls_push hcw).2.2.1
-              have h2 : adj G y z = true := by
+              have h1 : pdEdge G q.fc pv y = true := by
+                rw [← pdCode_eq_pdEdge hS]; exact (uncovCls_push hcw).2.2.1
+              have h2 : pdEdge G q.fc y z = true := by
                 cases t with
                 | nil => cases hz
                 | cons z' t' =>
                   simp at hz; subst hz
                   simp only [chainB, Bool.and_eq_true] at hchain'
-                  exact pdEdge_adj hchain'.1
-              cases h3 : adj G pv z with
-              | false => rfl
-              | true => exact (hT pv y z h1 h2 h3).elim
+                  exact hchain'.1
+              exact hN pv y z h1 h2
         -- start the walk
         have hstartD : start ∈ D := by
           rcases hDv.prov start hstart_fin with h | h | h
@@ -325,17 +335,14 @@ theorem uncovPdPath_complete_partial (G : MG) (hS : Simple G) (hW : WFG G) (hT :
             rw [hstart_lk] at hpv
             simp only [uncovInit, hs, hf] at hpv
             simp [List.lookup_cons] at hpv; subst hpv
-            have h1 : adj G q.u x1 = true := pdEdge_adj hpd01
-            have h2 : adj G x1 y = true := by
+            have h2 : pdEdge G q.fc x1 y = true := by
               cases rest with
               | nil => cases hy
               | cons z t =>
                 simp at hy; subst hy
                 simp only [chainB, Bool.and_eq_true] at hchrest
-                exact pdEdge_adj hchrest.1
-            cases h3 : adj G q.u y with
-            | false => rfl
-            | true => exact (hT _ _ _ h1 h2 h3).elim
+                exact hchrest.1
+            exact hN _ _ _ hpd01 h2
           · intro y hy
             refine ⟨?_, ?_, ?_⟩
             · simp only [uInit, optList, hs, hf]
@@ -347,5 +354,13 @@ theorem uncovPdPath_complete_partial (G : MG) (hS : Simple G) (hW : WFG G) (hT :
     obtain ⟨p, hpne, hp⟩ := uncovFinish_found hi hfound hlim
     rw [← hres] at hp
     exact ⟨p, hp, hvalid p hp hpne⟩
+
+/-- **Completeness of `uncovered_pd_path` on triangle-free skeletons** (`…_complete_partial`) -/
+theorem uncovPdPath_complete_partial (G : MG) (hS : Simple G) (hW : WFG G) (hT : TriangleFree G)
+    (nb : Nat → List Nat) (hnb : ∀ x y, y ∈ nb x ↔ adj G x y = true) (q : Query)
+    (hfu : q.first ≠ some q.u) (hg : uncovGuard G q = false) (maxLen : Nat)
+    (hlen : G.nodes.length < maxLen) (hex : ∃ p, UncovPd G q p) :
+    ∃ p, uncovPdPath G nb q maxLen = .ok (p, true) ∧ UncovPd G q p :=
+  uncovPdPath_complete_noShield G hS hW q (noShieldedPd_of_triangleFree hT q.fc) nb hnb hfu hg maxLen hlen hex
 
 end C18
